@@ -84,9 +84,24 @@ func verifLine(n int) []byte {
 
 func verifCopyBytes(b []byte) []byte { return append([]byte{}, b...) }
 
+// verifShaped is a line k ':' v '|' t with symbolic k, v, t: valid or invalid, with or
+// without in-place name normalisation (or deletion of the whole name), depending on the bytes.
+func verifShaped() []byte {
+	b := verifLine(3)
+	return []byte{b[0], ':', b[1], '|', b[2]}
+}
+
+func verifLineOf(n int) []byte {
+	if n < 0 {
+		return verifShaped()
+	}
+	return verifLine(n)
+}
+
 // VerifC05_Concat: parsing line1 \n line2 [\n] equals parsing line1 and line2 alone.
+// A negative length selects the shaped line.
 func verifC05Concat(n1, n2 int, ns string) {
-	l1, l2 := verifLine(n1), verifLine(n2)
+	l1, l2 := verifLineOf(n1), verifLineOf(n2)
 	trailing := nondetBool()
 	ignoreHost := nondetBool()
 	dg := verifCopyBytes(l1)
@@ -131,6 +146,10 @@ func VerifC05_Concat_3_4() { verifC05Concat(3, 4, "ns") }
 func VerifC05_Concat_4_4() { verifC05Concat(4, 4, "") }
 func VerifC05_Concat_5_3() { verifC05Concat(5, 3, "") }
 func VerifC05_Concat_3_5() { verifC05Concat(3, 5, "") }
+
+func VerifC05_Concat_S_S() { verifC05Concat(-1, -1, "") }
+func VerifC05_Concat_S_3() { verifC05Concat(-1, 3, "ns") }
+func VerifC05_Concat_2_S() { verifC05Concat(2, -1, "") }
 
 func VerifC05_ConcatTwin() {
 	verifC05Concat(3, 3, "")
